@@ -43,6 +43,8 @@ pub fn c03(seed: u64, n: usize) {
         let span = *r.pick(&[PI, PI, 2.0 * PI, 10.0, 100.0, 1e4]);
         let q = rand_joints(&mut r, span);
         let mut ks = KSpec::bare(p);
+        // limits attached now and then: forward kinematics must not depend on the constructor the solver came from
+        if r.chance(0.3) { let (_, c) = gen_cons(&mut r, None); ks.cons = c; }
         let mut fam = format!("{}/span{:.0e}", rfam, span);
         if i % 5 == 4 {
             let depth = 1 + r.below(2);
@@ -75,6 +77,20 @@ pub fn c01(seed: u64, n: usize) {
         if qy.ks.stack.is_empty() {
             emit_h_iki("C01", &qy.fam, &qy.ks.p, &qy.pose);
             emit_h_iki5("C01", &qy.fam, &qy.ks.p, &qy.pose, j6);
+        }
+        if i % 8 == 5 {
+            // a parallelogram on top edits the answers AFTER the solver's own cross-check: all four entry points
+            let (rfam, p) = gen_params(&mut r);
+            let mut ks = KSpec::bare(p);
+            let d = r.below(6); let mut c = r.below(6); if c == d { c = (c + 1) % 6; }
+            ks.stack.push(Wrap::P(*r.pick(&[1.0, -1.0, 0.5, 2.0, -0.7]), d, c));
+            let q = rand_joints(&mut r, 2.0);
+            let pose = ks.build().forward(&q);
+            let fam = format!("{}/para{}{}", rfam, d, c);
+            emit_inv("C01", &fam, &ks, &pose, Some(&q));
+            emit_invc("C01", &format!("{}/prev-origin", fam), &ks, &pose, &q, Some(&q));
+            emit_inv5("C01", &fam, &ks, &pose, q[5], Some(&q));
+            emit_invc5("C01", &format!("{}/prev-origin", fam), &ks, &pose, &q, Some(&q));
         }
     }
 }
